@@ -1,0 +1,30 @@
+//go:build verif
+
+package requests
+
+import "time"
+
+// VerifRebase snaps the age (relative to now) of every time stamp of the
+// sent requests to the nearest multiple of unit, plus eps.  The C11 harness
+// keeps a virtual clock that advances in multiples of unit (VerifAge); after
+// this call the real time that has elapsed since a stamp was taken no longer
+// shows in it, as long as it was less than unit/2.
+func (rs *Requests) VerifRebase(now time.Time, unit, eps time.Duration) {
+	z := time.Time{}
+	snap := func(t time.Time) time.Time {
+		k := (now.Sub(t) + unit/2) / unit
+		if k < 0 {
+			k = 0
+		}
+		return now.Add(-(k*unit + eps))
+	}
+	for i := range rs.requested {
+		r := &rs.requested[i]
+		if !r.rtime.Equal(z) {
+			r.rtime = snap(r.rtime)
+		}
+		if !r.ctime.Equal(z) {
+			r.ctime = snap(r.ctime)
+		}
+	}
+}
